@@ -134,6 +134,8 @@ class NamespaceHelper:
 
         self._prefix_map = {x.namespace: x.prefix for x in self._lookup.values()}  # map namespace to prefix
         self.ns_map = {x.prefix: x.namespace for x in self._lookup.values()}  # map prefix to namespace
+        if default_ns is not None:
+            self.ns_map[None] = default_ns  # a document root created with ns_map declares the default namespace as well
 
     @property
     def MSG(self) -> PrefixNamespace:  # noqa: D102, N802
